@@ -6,6 +6,16 @@ open Lean Wire
 
 def theOracle : Oracle := checkedOracle Simplex.solve
 
+/-- NOT a certified oracle: every reported optimum is shifted by `d·(1+|m|)`.  Used only to CLASSIFY a disagreement: if the
+    implementation's result is reproduced with all optima nudged down (or up) by 1e-10, the disagreement is a float
+    near-tie (an LP optimum within rounding distance of the bound it is compared with), not a model/code difference. -/
+def oracleShift (d : Rat) : Oracle :=
+  ⟨fun obj cs => match theOracle.lp obj cs with
+    | .optimal m x => .optimal (m + d * (1 + Poly.rabs m)) x
+    | r => r⟩
+
+def nearD : Rat := 1 / 10000000000
+
 def jLPRes : LPRes → Json
   | .optimal m x => Json.mkObj [("status", "optimal"), ("m", jRat m), ("x", jLin x)]
   | .infeasible => Json.mkObj [("status", "infeasible")]
@@ -79,7 +89,9 @@ def handlePoly (op : String) (j : Json) : Option (Except String Json) :=
       | .error _ => pure none
     let a := Poly.simplify theOracle (fun _ => true) l ctx
     let b := Poly.simplify theOracle (fun _ => false) l ctx
-    pure ((jExcept a jTL).setObjVal! "alt" (jExcept b jTL))
+    let n1 := Poly.simplify (oracleShift (-nearD)) (fun _ => true) l ctx
+    let n2 := Poly.simplify (oracleShift nearD) (fun _ => false) l ctx
+    pure (((jExcept a jTL).setObjVal! "alt" (jExcept b jTL)).setObjVal! "near" (Json.arr #[jExcept n1 jTL, jExcept n2 jTL]))
   | "optimize" => run do
     let l ← getTL (← j.getObjVal? "terms")
     let obj ← getLin (← j.getObjVal? "obj")
